@@ -19,7 +19,8 @@ RULE = (
     "Generate an ADMG (2..6 nodes, random or motif-planted), pick a district T, a valid topological order (drawn among "
     "all topological sorts), a non-empty C subset of T whose induced subgraph has a single district, and two positive "
     "SCMs. (1) compute_c_factor(T, V, P(V), topo) must evaluate to P(T | do(V minus T)) at every assignment; the same for "
-    "every district of the graph. (2) identify_district_variables(C, T, Q[T]) must return None or an expression "
+    "every district of the graph; the Lemma-3 marginal Q[A] of the ancestral set A = An(C) in G[T] and, from that non-atomic "
+    "Q[A], the Lemma-4 c-factor of EVERY district of G[A] are checked the same way. (2) identify_district_variables(C, T, Q[T]) must return None or an expression "
     "that evaluates to P(C | do(V minus C)) at every assignment (exact Fractions, truth by truncated factorisation). A None "
     "is compared with the set-level IDENTIFY recursion as a label only. Non-trivial = C is a proper subset of T and an "
     "answer was returned after at least one Lemma-4/Lemma-3 step; distinct = distinct (graph, T, C, topo)."
@@ -32,7 +33,7 @@ BUDGET = {
     "quick": dict(examples=150, shards=16, seconds=200),
     "thorough": dict(examples=1500, shards=16, seconds=2400),
 }
-ESSENTIAL_LABELS = {t: ["answered-proper-subset", "fail", "lemma4", "lemma1"] for t in ("quick", "thorough")}
+ESSENTIAL_LABELS = {t: ["answered-proper-subset", "fail", "lemma4", "lemma1", "lemma4-all-districts"] for t in ("quick", "thorough")}
 
 
 @st.composite
@@ -128,6 +129,29 @@ def check(case) -> Outcome:
                 return fail("c-factor:" + bad.pop("kind"), district=d, expression=q.to_y0(), model=scm.params(), **bad)
         if d == sorted(t):
             qt = q
+    # (1b) Lemma 3 + Lemma 4: Q[A] for the ancestral set A of C inside G[T], then the c-factor of EVERY district of
+    #      G[A] from the (non-atomic) Q[A] -- not only the district IDENTIFY happens to recurse on
+    a_set = sorted(rg.sub(t).an(c))
+    try:
+        q_a = tian_id.compute_ancestral_set_q_value(ancestral_set=frozenset(V(x) for x in a_set), subgraph_variables=frozenset(V(x) for x in t), subgraph_probability=qt, graph_topo=vt)
+    except Exception as e:
+        return fail("compute_ancestral_set_q_value-raised", exc=repr(e)[:300])
+    for k, scm in enumerate(scms):
+        bad = _compare(q_a, scm, a_set)
+        if bad:
+            return fail("lemma3:" + bad.pop("kind"), ancestral_set=a_set, expression=q_a.to_y0()[:1500], model=scm.params(), **bad)
+    sub_districts = sorted(sorted(x) for x in rg.sub(a_set).districts())
+    if len(sub_districts) >= 2:
+        labels.add("lemma4-all-districts")
+        for d in sub_districts:
+            try:
+                q = tian_id.compute_c_factor(district=[V(x) for x in d], subgraph_variables={V(x) for x in a_set}, subgraph_probability=q_a, graph_topo=vt)
+            except Exception as e:
+                return fail("compute_c_factor(lemma 4)-raised", district=d, exc=repr(e)[:300])
+            for k, scm in enumerate(scms):
+                bad = _compare(q, scm, d)
+                if bad:
+                    return fail("lemma4-c-factor:" + bad.pop("kind"), district=d, ancestral_set=a_set, expression=q.to_y0()[:1500], model=scm.params(), **bad)
     # (2) IDENTIFY
     from ..y0util import ReentryGuard, StepBudgetExceeded
 
